@@ -182,6 +182,17 @@ def extra_stages(tier, seed, scratch, total, notes):
     except runner.Inconclusive as e:
         notes.append({"stage": "asan", "result": "inconclusive (toolchain): " + str(e)[:300]})
         return
+    # --- plain release build (overflow checks and debug assertions off): the verdict of a panic monitor
+    # can flip between build flavours, so both are exercised
+    try:
+        rel = runner.build_driver("release")
+        subr = [u for u in units('quick', seed) if u[0] in ('valueop', 'builtins', 'indexing')] + [('programs', 200 + i) for i in range(16)]
+        tr = runner.run_units_with(__name__, subr, rel, os.path.join(scratch, "release"), seed, 'quick')
+        notes.append({"stage": "release-build (overflow checks off)", "units": len(subr), "executions": tr.evaluations, "violations": len(tr.violations)})
+        tr.observed = {"release:" + k: v for k, v in tr.observed.items() if not isinstance(v, set)}
+        total.merge(tr)
+    except runner.Inconclusive as e:
+        notes.append({"stage": "release-build", "result": "inconclusive: " + str(e)[:200]})
     sub = [u for u in units('quick', seed) if u[0] in ('valueop', 'builtins', 'indexing')][::2] + [('programs', i) for i in range(12)]
     t = runner.run_units_with(__name__, sub, binary, os.path.join(scratch, "asan"), seed + 1000, 'quick', env=env)
     notes.append({"stage": "asan", "build": note, "units": len(sub), "executions": t.evaluations,
